@@ -1,6 +1,8 @@
 package main
 
 import (
+	"runtime/debug"
+	"runtime"
 	"encoding/json"
 	"fmt"
 	"os"
@@ -257,7 +259,7 @@ func (*c14Prop) Gen(r *Rand, pl *Plan) Case {
 			t.Huge = hugeSizes[r.Intn(len(hugeSizes))]
 		}
 		if !t.Construct && r.Chance(1, 10) {
-			t.Derive = []string{"single", "single", "opt", "memo", "suppress", "seq", "rtrim"}[r.Intn(7)]
+			t.Derive = []string{"single", "single", "opt", "memo", "suppress", "seq", "rtrim", "sentence", "sentence"}[r.Intn(9)]
 		}
 		if caseHuge > 0 && r.Chance(3, 4) {
 			t.Huge = caseHuge // the same placement for (most of) the runs: equal inputs get equal global positions
@@ -385,6 +387,10 @@ func (t *c14Task) derive(p parsley.Parser) parsley.Parser {
 		return combinator.SeqOf(p).Bind(concatInterp)
 	case "rtrim":
 		return text.RightTrim(p, text.WsSpacesNl)
+	case "sentence":
+		// a sentence of the run's own around the shared root, configured for this run
+		// (builder methods on the NEW object the constructor returned)
+		return combinator.Sentence(p).Name(fmt.Sprintf("document-%x", fnv(3, t.Input)&0xfff))
 	}
 	return p
 }
@@ -749,6 +755,7 @@ func c14Run(c *c14Case, probeSequential bool) Verdict {
 		}
 	}
 	before := snapshotRoots()
+	settingsBefore := runtimeSettings()
 	obs := make([]string, n+1)
 	raws := make([]interface{}, n+1)
 	owned := make([]parsley.Parser, n+1)
@@ -766,6 +773,11 @@ func c14Run(c *c14Case, probeSequential bool) Verdict {
 		obs[id], raws[id] = t.observeCtx(t.derive(p), prepared[id])
 	})
 	after := snapshotRoots()
+	if sa := runtimeSettings(); sa != settingsBefore && !info.OverBudget && !info.Deadlock {
+		v.Violation, v.Class = true, "roots:runtime-setting"
+		v.Detail = fmt.Sprintf("a process-wide runtime setting differs after the concurrent runs (all of them returned): %s before, %s after - a library that changes one for the duration of a call restores the wrong value when calls overlap", settingsBefore, sa)
+		return v
+	}
 	v.Steps = info.Steps
 	v.Trace = info.TraceHash
 	v.Probes["context_switches"] = int64(info.Switches)
@@ -1125,4 +1137,17 @@ func (*c14Prop) Shrink(cc Case) []Case {
 		out = append(out, k)
 	}
 	return out
+}
+
+// runtimeSettings reads the process-wide settings of the Go runtime that a library could
+// change (each is read by setting it and setting it back at once; only the harness's
+// main goroutine runs at these points).
+func runtimeSettings() string {
+	ms := debug.SetMaxStack(1 << 30)
+	debug.SetMaxStack(ms)
+	gc := debug.SetGCPercent(100)
+	debug.SetGCPercent(gc)
+	mt := debug.SetMaxThreads(10000)
+	debug.SetMaxThreads(mt)
+	return fmt.Sprintf("max stack %d, GC percent %d, max threads %d, GOMAXPROCS %d", ms, gc, mt, runtime.GOMAXPROCS(0))
 }
